@@ -4,7 +4,7 @@
    code answered and the contents of both rule tables read from the App afterwards.
    The model used is the REPAIRED code ([repaired]). *)
 From Coq Require Import Uint63.
-From Relay Require Import Base.Prelude Base.AList Model.AdminJson Model.AdminApi.
+From Relay Require Import Base.Prelude Base.AList Model.AdminJson Model.AdminApi Model.AdminDecode.
 Local Open Scope N_scope.
 
 (* byte strings arrive packed seven to a 63-bit machine integer (one Coq term per seven bytes keeps the case
@@ -44,10 +44,15 @@ Definition snap := option (list (bytes * drule) * list (bytes * option (list byt
 
 (* [probes]: every command sent and every reply seen in the session, with what Go's json.Valid said about
    it - the checker [wf] the theorems speak about must agree with json.Valid on all of them;
-   [decoded]: every command sent with whether the real json.Unmarshal into vw.Command succeeded - whatever
-   decodes must be JSON for [wf] too (what does not decode is [None] for the model: refused, nothing changed) *)
+   [decoded]: every command message sent, with what the real json.Unmarshal(msg, &vw.Command) produced for it
+   ([None] = it returned an error): the model's [decode] must produce exactly that from the bytes *)
 Definition case := (bytes * list (bytes * (drule + bytes)) * list (bytes * (srule + bytes)) * list (item * snap)
-                    * list (bytes * bool) * list (bytes * bool))%type.
+                    * list (bytes * bool) * list (bytes * option command))%type.
+
+Definition command_eqb (a b : command) : bool :=
+  beqb (verb a) (verb b) && beqb (what a) (what b) && beqb (which a) (which b) && option_eqb beqb (rule a) (rule b).
+Definition decode_ok (p : bytes * option command) : bool := option_eqb command_eqb (decode (fst p)) (snd p).
+
 
 Definition tab_dec {R} (t : list (bytes * (R + bytes))) (raw : bytes) : R + bytes :=
   match @lookup bytes (R + bytes) beqb raw t with Some r => r | None => inr [] end.
@@ -57,6 +62,14 @@ Definition drule_eqb (a b : drule) : bool :=
   beqb (d_token a) (d_token b) && beqb (d_file a) (d_file b).
 Definition feeds_eqb (a b : option (list bytes)) : bool := option_eqb (list_eqb beqb) a b.
 Definition pair_eqb {V} (e : V -> V -> bool) (a b : bytes * V) : bool := beqb (fst a) (fst b) && e (snd a) (snd b).
+
+(* the recorded results of the real inner json.Unmarshal (rule bytes -> rule or error text) are the EXPECTED
+   values of the model's [dec_dest_model] / [dec_stream_model] *)
+Definition sum_eqb {R} (e : R -> R -> bool) (a b : R + bytes) : bool :=
+  match a, b with inl x, inl y => e x y | inr x, inr y => beqb x y | _, _ => false end.
+Definition srule_eqb (a b : srule) : bool := beqb (s_stream a) (s_stream b) && option_eqb (list_eqb beqb) (s_feeds a) (s_feeds b).
+Definition dest_dec_ok (p : bytes * (drule + bytes)) : bool := sum_eqb drule_eqb (dec_dest_model (fst p)) (snd p).
+Definition stream_dec_ok (p : bytes * (srule + bytes)) : bool := sum_eqb srule_eqb (dec_stream_model (fst p)) (snd p).
 
 Definition snap_ok (s : st) (n : snap) : bool :=
   match n with
@@ -122,7 +135,7 @@ Definition start (api : bytes) : tst :=
 Definition case_ok (c : case) : bool :=
   let '(api, td, ts, items, probes, decoded) := c in
   items_ok api (tab_dec td) (tab_dec ts) (start api) items && forallb (fun p => Bool.eqb (wf (fst p)) (snd p)) probes &&
-  forallb (fun p => negb (snd p) || wf (fst p)) decoded.
+  forallb decode_ok decoded && forallb dest_dec_ok td && forallb stream_dec_ok ts.
 
 (* non-trivial: the model run changes the rule tables at least twice *)
 Definition case_nontrivial (c : case) : bool :=
@@ -142,7 +155,8 @@ Section Diag.
 End Diag.
 Definition case_flags (c : case) : list (bool * bool) * list bool :=
   let '(api, td, ts, items, probes, _) := c in
-  (item_flags api (tab_dec td) (tab_dec ts) (start api) items, map (fun p => Bool.eqb (wf (fst p)) (snd p)) probes).
+  (item_flags api (tab_dec td) (tab_dec ts) (start api) items,
+   map (fun p => Bool.eqb (wf (fst p)) (snd p)) probes ++ [true; true; true] ++ map decode_ok (let '(_, _, _, _, _, d) := c in d)).
 
 Definition mismatches (cs : list case) : list N := mismatch_idx case_ok 0 cs.
 Definition nontrivial (cs : list case) : list N := idx_where case_nontrivial cs.
